@@ -167,6 +167,9 @@ static void ghost_setup()
       bool lr = G_AND(live, t > 0);
       int ty = (t == 1) ? 3 : (t == 2) ? 20 : (t == 3) ? 2 : 22; // F, NOSTAT, V, SIMU
       if (w == 1 && !VF_EXPAND) ty = (t <= 2) ? 2 : 22;         // dbout without information to expand: V, SIMU
+#ifdef VF_NOSIMU
+      if (VF_NOSIMU && ty == 22) ty = 2;                        // no column with the SIMU locator beforehand
+#endif
       g_loc[w][n] = lr ? ty : G_NONE;
       g_rank[w][n] = lr ? r : 0;
       for (int j = n - e; j < n; j++)
